@@ -4,6 +4,7 @@ import (
 	"bytes"
 	"fmt"
 	"os"
+	"sync"
 	"testing"
 
 	"github.com/polynetwork/poly/common"
@@ -81,6 +82,30 @@ func runC16(ctx *ev.Ctx, c govCase) {
 		b := lworld.Roundtrip(ch.Build(govBlockTxs(ch, ops), lworld.BlockOpt{}))
 		var first string
 		var firstRes store.ExecuteResult
+		// scheduling independence: RPC pre-executions run concurrently with block execution on a real node
+		stop := make(chan struct{})
+		done := make(chan struct{})
+		var stopOnce sync.Once
+		stopPre := func() { stopOnce.Do(func() { close(stop); <-done }) }
+		defer stopPre() // also on an oracle failure: the goroutine must be gone before the ledger is closed
+		if bi%2 == 0 && len(b.Transactions) > 0 {
+			ctx.Label("concurrent-preexec")
+			st := ch.Store
+			go func() {
+				defer close(done)
+				defer func() { recover() }()
+				for i := 0; ; i++ {
+					select {
+					case <-stop:
+						return
+					default:
+					}
+					st.PreExecuteContract(b.Transactions[i%len(b.Transactions)])
+				}
+			}()
+		} else {
+			close(done)
+		}
 		for r := 0; r < reps; r++ {
 			var res store.ExecuteResult
 			if p := ev.Catch(func() { res, err = ch.Store.ExecuteBlock(b) }); p != "" {
@@ -95,6 +120,24 @@ func runC16(ctx *ev.Ctx, c govCase) {
 			} else if d != first {
 				ctx.Failf("block %d: execution %d of the same block on the same prior state differs from execution 0:\n%s\nvs\n%s", bi+1, r, clipStr(d, 1500), clipStr(first, 1500))
 			}
+		}
+		stopPre()
+		// between ExecuteBlock and SubmitBlock a node serves pre-executions and may execute another proposal for the
+		// same height: neither may disturb the pending result of this block
+		if len(b.Transactions) > 0 {
+			ch.Store.PreExecuteContract(b.Transactions[bi%len(b.Transactions)])
+		}
+		rev := append([]lworld.GovOp{}, ops...)
+		for i, j := 0, len(rev)-1; i < j; i, j = i+1, j-1 {
+			rev[i], rev[j] = rev[j], rev[i]
+		}
+		alt := lworld.Roundtrip(ch.Build(govBlockTxs(ch, rev), lworld.BlockOpt{TimeDelta: 3}))
+		if _, err := ch.Store.ExecuteBlock(alt); err != nil {
+			ctx.Failf("block %d: ExecuteBlock of an alternative proposal: %v", bi+1, err)
+		}
+		if d := execResultDigest(firstRes); d != first {
+			ctx.Failf("block %d: the pending execution result changed after a pre-execution and the execution of another proposal for the same height:\n%s\nvs\n%s",
+				bi+1, clipStr(d, 1200), clipStr(first, 1200))
 		}
 		okGov := 0
 		for i, n := range firstRes.Notify {
